@@ -53,7 +53,12 @@ func c17Scenarios(quick bool) []EpochScenario {
 		pols = allPolicies
 		rows = len(cfgRows)
 	}
-	return buildScenarios(rows, pols, seeds, modes, fits, false)
+	scs := buildScenarios(rows, pols, seeds, modes, fits, false)
+	// every placement a tie between five species (see c17TweakFor)
+	for i, pol := range pols {
+		scs = append(scs, EpochScenario{Seed: "hbt", Cfg: []int{0, 5, 7, 2}[i%4], Fit: []int{2, 4, 5, 6}[i%4], Policy: pol, Mode: "whole", Epochs: 3})
+	}
+	return scs
 }
 
 func multiDiscSeed() *GenomeSpec {
@@ -75,6 +80,20 @@ func c17Tweak(o *neat.Options) {
 	}
 	if o.MutateAddNodeProb < 0.2 {
 		o.MutateAddNodeProb = 0.2
+	}
+}
+
+// c17TweakFor: the tweak of a scenario. The hand-built population "hbt" (five species) runs with all three
+// compatibility coefficients 0 (legal: "all non-negative coefficient settings"): every baby is at distance 0
+// from every representative, i.e. every placement is an exact tie between all species - the rule "the first
+// of the nearest" decides each one.
+func c17TweakFor(sc EpochScenario) func(*neat.Options) {
+	if sc.Seed != "hbt" {
+		return c17Tweak
+	}
+	return func(o *neat.Options) {
+		c17Tweak(o)
+		o.ExcessCoeff, o.DisjointCoeff, o.MutdiffCoeff = 0, 0, 0
 	}
 }
 
@@ -287,7 +306,7 @@ func runC17Child(c *Ctx) {
 func c17Explorer(c *Ctx, sc EpochScenario, prefix []int) (*Exec, *popRun) {
 	var run *popRun
 	ex := &Explorer{Policy: parsePolicy(sc.Policy), Horizon: 400000}
-	ex.Body = func(x *Exec) { run = runEpochBodyOpts(c, sc, 0, x, map[string]int64{}, c17Tweak, false) }
+	ex.Body = func(x *Exec) { run = runEpochBodyOpts(c, sc, 0, x, map[string]int64{}, c17TweakFor(sc), false) }
 	x := ex.RunOne(prefix)
 	return x, run
 }
@@ -296,8 +315,13 @@ func c17Explorer(c *Ctx, sc EpochScenario, prefix []int) (*Exec, *popRun) {
 // identify and the clock. Executions that must agree are run in different environments, so that a
 // dependence on either shows on every run and not by luck: 0 = ascending keys, clock at 2001-01-01
 // advancing 1 ms per reading; 1 = descending keys, clock in 2033 advancing ~7 s per reading; 2 = keys
-// rotated by half, clock in 1999 advancing 1 ns per reading.
+// rotated by half, clock in 1999 advancing 1 ns per reading. GOMAXPROCS is all processors / 1 / 3.
 func c17Env(k int) {
+	procs := []int{runtime.NumCPU(), 1, 3}[k%3] // the processor count is part of the environment too
+	if procs < 2 && k%3 == 0 {
+		procs = 2
+	}
+	runtime.GOMAXPROCS(procs)
 	switch k % 3 {
 	case 0:
 		vmap.SetOrder(vmap.Ascending)
@@ -453,7 +477,7 @@ func runC17(c *Ctx) {
 		}
 		var lastKeys []string
 		ex.Body = func(x *Exec) {
-			r := runEpochBodyOpts(c, sc, 0, x, map[string]int64{}, c17Tweak, false)
+			r := runEpochBodyOpts(c, sc, 0, x, map[string]int64{}, c17TweakFor(sc), false)
 			epochs += int64(len(r.hash))
 			_ = lastKeys
 		}
@@ -469,7 +493,7 @@ func runC17(c *Ctx) {
 			return b.String()
 		}
 		ex.Body = func(x *Exec) {
-			r := runEpochBodyOpts(c, sc, 0, x, map[string]int64{}, c17Tweak, false)
+			r := runEpochBodyOpts(c, sc, 0, x, map[string]int64{}, c17TweakFor(sc), false)
 			epochs += int64(len(r.hash))
 			key := record(x)
 			cur := [2]uint64{x.EndHash, x.TraceSig()}
@@ -484,7 +508,7 @@ func runC17(c *Ctx) {
 					what = "the sequence of random draws (kind and bound) differs"
 				}
 				// reproduce with text keys for the message
-				r1 := runEpochBodyOpts(c, sc, 0, &Exec{prefix: x.prefix, policy: x.policy, horizon: x.horizon}, map[string]int64{}, c17Tweak, true)
+				r1 := runEpochBodyOpts(c, sc, 0, &Exec{prefix: x.prefix, policy: x.policy, horizon: x.horizon}, map[string]int64{}, c17TweakFor(sc), true)
 				_ = r1
 				rp := &Replay{Scenario: "epochs", Params: sc.params(), Answers: x.Answers(), Clause: what}
 				c.ViolateOrd("C17/explorer-rerun-differs", int64(len(x.prefix)), fmt.Sprintf("[%s] the same execution (same answers to all random draws) run twice in one process differs: %s", sc.String(), what), rp)
@@ -540,10 +564,10 @@ func runC17(c *Ctx) {
 		c.Sample(map[string]interface{}{"seeded_run": seeded[1].String(), "compared": "this process twice (different GOGC / GOMAXPROCS, unrelated evolution in between) and a second process"})
 	}
 	c.States = int64(len(c.distinct))
-	c.Rule = "(i) explorer mode: for every scenario (start genome incl. one with five disconnected sensors and random populations x configuration row x landscape x base policy; four node activators so that the activation roulette is drawn) EVERY execution within 1 deviation of the base policy is run twice in one process (second pass after garbage, a forced GC and an unrelated scenario, at log level debug with the sinks silenced; all runs of a process start from the same start genome objects) and the base executions a third time in a fresh process; the draw trace (kind and bound of every draw) and the bit-exact fingerprint of the population after construction and after each of 6-8 epochs must agree. (ii) real math/rand: seeds {0,1,42,VERIF_SEED}+k*1000003 x start genome x configuration x 10 epochs, run twice in-process from the same start genome object (unrelated evolution in between, different GOGC, GOMAXPROCS and log level), once with read-only dumps / verification of the population before every turnover, once in a second process, and twice through Experiment.Execute on a zero-value experiment. states = distinct population fingerprints, transitions = populations produced"
+	c.Rule = "(i) explorer mode: for every scenario (start genome incl. one with five disconnected sensors and random populations x configuration row x landscape x base policy; four node activators so that the activation roulette is drawn) EVERY execution within 1 deviation of the base policy is run twice in one process (second pass after garbage, a forced GC and an unrelated scenario, at log level debug with the sinks silenced; all runs of a process start from the same start genome objects) and the base executions a third time in a fresh process; the draw trace (kind and bound of every draw) and the bit-exact fingerprint of the population after construction and after each of 6-8 epochs must agree; one hand-built population of five species runs with all compatibility coefficients 0, so that every placement of a baby is an exact tie between all species. (ii) real math/rand: seeds {0,1,42,VERIF_SEED}+k*1000003 x start genome x configuration x 10 epochs, run twice in-process from the same start genome object (unrelated evolution in between, different GOGC, GOMAXPROCS and log level), once with read-only dumps / verification of the population before every turnover, once in a second process, and twice through Experiment.Execute on a zero-value experiment. states = distinct population fingerprints, transitions = populations produced"
 	c.Count("map_ranges_executed_over_2+_keys_in_instrumented_code", atomic.SwapInt64(&vmap.Ranges, 0))
 	c.Count("map_ranges_with_keys_of_no_canonical_order", atomic.SwapInt64(&vmap.Unordered, 0))
-	c.Rule += ". ENVIRONMENTS: the executions that must agree run under different answers to the two environment choices the harness owns besides the random draws - the iteration order of every map the instrumenter can identify syntactically (range statements are rewritten to iterate over harness-ordered keys: ascending in the first run, descending in the second, rotated by half in the second process / the dump run) and the clock (package time is replaced by a shim whose clock the harness sets: 2001 + 1 ms per reading, 2033 + 7 s per reading, 1999 + 1 ns per reading); a dependence of the evolved population on either therefore shows on every run"
+	c.Rule += ". ENVIRONMENTS: the executions that must agree run under different answers to the two environment choices the harness owns besides the random draws - the iteration order of every map the instrumenter can identify syntactically (range statements are rewritten to iterate over harness-ordered keys: ascending in the first run, descending in the second, rotated by half in the second process / the dump run) the processor count (all / 1 / 3) and the clock (package time is replaced by a shim whose clock the harness sets: 2001 + 1 ms per reading, 2033 + 7 s per reading, 1999 + 1 ns per reading); a dependence of the evolved population on either therefore shows on every run"
 	c.Assume("a map reached in a way the instrumenter cannot classify syntactically (through an interface, a function value, another package) keeps the runtime's order; dependence on it is then caught only because every execution is repeated (>= 2-3 times)")
 	c.Assume("memory addresses cannot be chosen by the harness; dependence on them is looked for by repeating executions after garbage, with other GC settings and in a second process")
 }
